@@ -8,6 +8,11 @@ HERE = os.path.dirname(os.path.dirname(os.path.abspath(__file__)))
 sys.path.insert(0, HERE)
 from checks import META, MANIFEST_TEXT  # noqa: E402
 
+import subprocess
+
+FIXES = "; ".join(
+    l.strip() for l in subprocess.run(["git", "-C", "/repo", "log", "--reverse", "--grep", "^fix:", "--format=%h %s"], capture_output=True, text=True).stdout.splitlines()
+)[:3000]
 props = [json.loads(l)["id"] for l in open(os.path.join(HERE, "properties.jsonl"))]
 checks = []
 na = []
@@ -49,7 +54,7 @@ manifest = {
     ],
     "checks": checks,
     "not_applicable": na,
-    "notes": "fix: commits in /repo (unguarded genuine-defect repairs): fd12034 jit Var(aval); f26ce51 allclose dtype cast; 18254c6 inherited-attribute restore; 197d660 conversion trace context. Known findings: /verif/known_findings.json.",
+    "notes": "Unguarded genuine-defect repairs in /repo (git log --grep '^fix:'): " + FIXES + ". Known findings: /verif/known_findings.json (mechanism-keyed). Seeded changes and which checks catch them: /verif/seeded/, DESIGN.md 8.6.",
 }
 json.dump(manifest, open(os.path.join(HERE, "MANIFEST.json"), "w"), indent=1)
 print("wrote MANIFEST.json:", len(checks), "checks,", len(na), "not_applicable")
